@@ -152,14 +152,21 @@ let impl_sigs line : (string * string) list =
         (String.split_on_char ';' s)
 
 (* the model's signer for one command: answers the i-th call with what the real signer returned *)
-let mk_signer impl_line =
+let mk_signer ?(fallback = fun (_ : bytes) -> (None : bytes option)) impl_line =
   let avail = ref (impl_sigs impl_line) in
   let log = ref [] in
   let sg (m : bytes) : bytes option =
     match !avail with
-    | [] ->
-        log := (hx m ^ ":nosig") :: !log;
-        None
+    | [] -> (
+        (* the implementation did not get as far as signing at this call: the model asks the library to sign,
+           so that "the model succeeds where the implementation gave up early" shows as ok vs err *)
+        match fallback m with
+        | Some s ->
+            log := (hx m ^ ":" ^ hx s) :: !log;
+            Some s
+        | None ->
+            log := (hx m ^ ":nosig") :: !log;
+            None)
     | (_, s) :: t ->
         avail := t;
         log := (hx m ^ ":" ^ s) :: !log;
@@ -185,6 +192,7 @@ let parse_tval s =
 let client_strs n v b = [ unhx n; unhx v ] @ if b = "none" then [] else [ unhx b ]
 
 type st = {
+  secrets : (string, string * string) Hashtbl.t; (* slot -> (oracle scheme, secret hex) *)
   mutable bcalls : bcall list;
   mutable bseq : n;
   mutable cur : record option;
@@ -244,8 +252,8 @@ let parse_op (st : st) name (a : string array) : op =
   | "remove_tcp" -> ORemoveTcp
   | "remove_tcp6" -> ORemoveTcp6
   | "set_client_info" -> OSetClientInfo (client_strs a.(0) a.(1) a.(2))
-  | "set_udp_socket" -> OSetUdpSocket (unhx a.(0), n_of_dec a.(1))
-  | "set_tcp_socket" -> OSetTcpSocket (unhx a.(0), n_of_dec a.(1))
+  | "set_udp_socket" -> OSetUdpSocket (unhx (List.hd (String.split_on_char '%' a.(0))), n_of_dec a.(1))
+  | "set_tcp_socket" -> OSetTcpSocket (unhx (List.hd (String.split_on_char '%' a.(0))), n_of_dec a.(1))
   | "remove_udp_socket" -> ORemoveUdpSocket
   | "remove_udp6_socket" -> ORemoveUdp6Socket
   | "remove_tcp_socket" -> ORemoveTcpSocket
@@ -278,6 +286,15 @@ let parse_bcall m : bcall =
   | [ "raw"; k; v ] -> BRaw (unhx k, unhx v)
   | _ -> failwith ("bcall " ^ m)
 
+let oracle_signer (st : st) slot : bytes -> bytes option =
+ fun m ->
+  match Hashtbl.find_opt st.secrets slot with
+  | None -> None
+  | Some (sch, sec) -> (
+      match split_ws (query (Printf.sprintf "sign %s %s %s" sch sec (hx m))) with
+      | [ s ] when s <> "err" && s <> "-" -> Some (unhx s)
+      | _ -> None)
+
 let vfy_of (r : record) = Printf.sprintf "vfy=%s:%s:1" (hx (signed_payload r)) (hx r.sig0)
 
 let run_line c kt (st : st) (line : string) (impl_line : string) : string =
@@ -289,6 +306,16 @@ let run_line c kt (st : st) (line : string) (impl_line : string) : string =
         match make_key c kt t.(2) with
         | Some k ->
             Hashtbl.replace st.keys t.(1) k;
+            (let spec = t.(2) in
+             let sch, sec =
+               match (kt, String.split_on_char ':' spec) with
+               | Comb, [ "secp"; h ] -> ("k", h)
+               | Comb, [ "ed"; h ] -> ("ed", h)
+               | Ed, _ -> ("ed", spec)
+               | Toy, p :: _ -> ("toy", p)
+               | _, _ -> ("k", spec)
+             in
+             Hashtbl.replace st.secrets t.(1) (sch, sec));
             Printf.sprintf "key pk=%s pku=%s nid=%s ek=%s" (hx k.pk_enc) (hx k.pk_unc) (hx (node_id_of k))
               (hx (scheme_key k.pk_scheme))
         | None -> "err")
@@ -326,7 +353,7 @@ let run_line c kt (st : st) (line : string) (impl_line : string) : string =
         match Hashtbl.find_opt st.keys t.(1) with
         | None -> "nokey"
         | Some k -> (
-            let sg, show = mk_signer impl_line in
+            let sg, show = mk_signer ~fallback:(oracle_signer st t.(1)) impl_line in
             let sq = if t.(3) = "-" then n_of_int 1 else n_of_dec t.(3) in
             let calls = List.map parse_bcall (Array.to_list (Array.sub t 4 (Array.length t - 4))) in
             st.bcalls <- calls;
@@ -342,7 +369,7 @@ let run_line c kt (st : st) (line : string) (impl_line : string) : string =
         match Hashtbl.find_opt st.keys t.(1) with
         | None -> "nokey"
         | Some k -> (
-            let sg, show = mk_signer impl_line in
+            let sg, show = mk_signer ~fallback:(oracle_signer st t.(1)) impl_line in
             let calls = st.bcalls @ List.map parse_bcall (Array.to_list (Array.sub t 3 (Array.length t - 3))) in
             st.bcalls <- calls;
             match build c kt st.bseq calls k sg with
@@ -356,7 +383,7 @@ let run_line c kt (st : st) (line : string) (impl_line : string) : string =
         | None, _ -> "nokey"
         | _, None -> "norec"
         | Some k, Some r ->
-            let sg, show = mk_signer impl_line in
+            let sg, show = mk_signer ~fallback:(oracle_signer st t.(2)) impl_line in
             let o = parse_op st t.(1) (Array.sub t 4 (Array.length t - 4)) in
             let res, r' = step c kt r o k sg in
             st.cur <- Some r';
@@ -373,6 +400,7 @@ let run_line c kt (st : st) (line : string) (impl_line : string) : string =
         st.bseq <- n_of_int 1;
         Hashtbl.reset st.saved;
         Hashtbl.reset st.keys;
+        Hashtbl.reset st.secrets;
         "reset"
     | "save" -> (
         match st.cur with
@@ -461,7 +489,7 @@ let () =
   oracle_in := i;
   oracle_out := o;
   let c = mk_crypto backend in
-  let st = { bcalls = []; bseq = n_of_int 1; cur = None; saved = Hashtbl.create 16; keys = Hashtbl.create 16 } in
+  let st = { secrets = Hashtbl.create 16; bcalls = []; bseq = n_of_int 1; cur = None; saved = Hashtbl.create 16; keys = Hashtbl.create 16 } in
   (try
      while true do
        let line = input_line cmds in
